@@ -8,6 +8,7 @@ from . import bind  # noqa: F401
 from . import events, explore, worlds
 
 HAND_SEEDS = ["empty", "chain", "skip", "div", "two", "desc"]
+NOSEG_SEEDS = HAND_SEEDS + ["zero"]  # node id 0 is legal only without a label array
 ASSUME_COMMON = [
     "third-party behaviour (networkx, numpy, skimage.regionprops, psygnal) is trusted",
     "bounds: <= 6 seed nodes, 4 frames, 4x6 (x2) pixel frames, alphabets of DESIGN.md 3.2",
@@ -123,7 +124,9 @@ def forests_seeds(n, t, min_nodes=1):
 def check_c03(tier):
     q = tier == "quick"
     stages = [
-        dict(name="noseg-bfs", worlds=["noseg-2d"], seeds=HAND_SEEDS, depth=2 if q else 3,
+        dict(name="noseg-bfs", worlds=["noseg-2d"], seeds=NOSEG_SEEDS, depth=2 if q else 3,
+             kinds=("del_node", "del_edge", "add_edge", "add_node", "swap")),
+        dict(name="renamed-keys", worlds=["noseg-2d-renamed"], seeds=["div", "skip", "zero"], depth=1 if q else 2,
              kinds=("del_node", "del_edge", "add_edge", "add_node", "swap")),
         dict(name="forests", worlds=["noseg-2d-given"], seeds=forests_seeds(4 if q else 5, 3 if q else 4), depth=1,
              kinds=("del_node", "del_edge", "add_edge", "add_node", "swap")),
@@ -141,8 +144,10 @@ def struct_stages(tier, seg_depth_q=1, seg_depth_t=2, extra_kinds=()):
     q = tier == "quick"
     kinds = STRUCT_KINDS + tuple(extra_kinds)
     return [
-        dict(name="noseg-bfs", worlds=["noseg-2d"], seeds=HAND_SEEDS, depth=2 if q else 3, kinds=kinds),
+        dict(name="noseg-bfs", worlds=["noseg-2d"], seeds=NOSEG_SEEDS, depth=2 if q else 3, kinds=kinds),
         dict(name="noseg-given-bfs", worlds=["noseg-2d-given"], seeds=["div", "two", "desc"], depth=2 if q else 3, kinds=kinds),
+        dict(name="renamed-keys", worlds=["noseg-2d-renamed", "noseg-2d-renamed-given"], seeds=["div", "skip", "zero"],
+             depth=1 if q else 2, kinds=kinds),
         dict(name="forests", worlds=["noseg-2d-given"], seeds=forests_seeds(4 if q else 5, 3 if q else 4), depth=1, kinds=kinds),
         # constructor clause: ids computed by the constructor on every forest
         dict(name="forests-computed-ids", worlds=["noseg-2d"], seeds=forests_seeds(4 if q else 5, 3 if q else 4), depth=1,
@@ -181,7 +186,7 @@ def check_c11(tier):
     # strokes that overwrite several nodes before a nested add-node is refused
     stages.append(dict(name="seg-twodiv", worlds=["seg-2d"], seeds=["twodiv", "fix6"], depth=1 if q else 2,
                        kinds=("paint", "add_node", "add_edge", "del_node")))
-    stages.append(dict(name="noseg-axes", worlds=["noseg-2d-axes", "noseg-3d"], seeds=HAND_SEEDS, depth=1 if q else 2,
+    stages.append(dict(name="noseg-axes", worlds=["noseg-2d-axes", "noseg-3d"], seeds=NOSEG_SEEDS, depth=1 if q else 2,
                        kinds=STRUCT_KINDS + ("set_attr",)))
     return run_e1("C11", tier, stages, dict(undo_probe=False), time_budget=budget(tier, 100, 1500))
 
@@ -200,8 +205,9 @@ def check_c01(tier):
     q = tier == "quick"
     kinds = STRUCT_KINDS + ("set_attr", "primitive")
     stages = [
-        dict(name="noseg-bfs", worlds=["noseg-2d", "noseg-2d-given"], seeds=HAND_SEEDS, depth=2 if q else 3, kinds=kinds),
-        dict(name="noseg-configs", worlds=["noseg-2d-axes", "noseg-3d", "noseg-2d-fd"], seeds=HAND_SEEDS, depth=1 if q else 2, kinds=kinds),
+        dict(name="noseg-bfs", worlds=["noseg-2d", "noseg-2d-given"], seeds=NOSEG_SEEDS, depth=2 if q else 3, kinds=kinds),
+        dict(name="noseg-configs", worlds=["noseg-2d-axes", "noseg-3d", "noseg-2d-fd", "noseg-2d-renamed", "noseg-2d-renamed-given"],
+             seeds=NOSEG_SEEDS, depth=1 if q else 2, kinds=kinds),
         dict(name="forests", worlds=["noseg-2d"], seeds=forests_seeds(4 if q else 5, 3 if q else 4), depth=1, kinds=kinds),
         dict(name="seg-bfs", worlds=["seg-2d", "seg-2d-aniso"] if q else ["seg-2d", "seg-2d-aniso", "seg-2d-all", "seg-3d", "seg-3d-aniso", "seg-2d-fd"],
              seeds=HAND_SEEDS + ["twodiv"], depth=1 if q else 2, kinds=kinds + ("paint",)),
@@ -601,11 +607,11 @@ def check_c14(tier):
     q = tier == "quick"
     sk = STRUCT_KINDS + ("set_attr",)
     stages = [
-        dict(name="csv+internal noseg", worlds=["noseg-2d", "noseg-3d", "noseg-2d-axes", "noseg-2d-given"], seeds=HAND_SEEDS,
+        dict(name="csv+internal noseg", worlds=["noseg-2d", "noseg-3d", "noseg-2d-axes", "noseg-2d-given", "noseg-2d-renamed"], seeds=NOSEG_SEEDS,
              depth=1 if q else 2, kinds=sk, formats=["csv", "internal"], max_states=None if q else 8000),
         dict(name="csv+internal seg", worlds=["seg-2d", "seg-3d-aniso"], seeds=HAND_SEEDS, depth=1, kinds=SEG_KINDS,
              formats=["csv", "internal"], max_states=1500 if q else None),
-        dict(name="geff noseg", worlds=["noseg-2d", "noseg-3d", "noseg-2d-axes"], seeds=["div", "skip", "two"], depth=1, kinds=sk,
+        dict(name="geff noseg", worlds=["noseg-2d", "noseg-3d", "noseg-2d-axes", "noseg-2d-renamed"], seeds=["div", "skip", "two", "zero"], depth=1, kinds=sk,
              formats=["geff"]),
         dict(name="geff seg", worlds=["seg-2d", "seg-3d-aniso"], seeds=["div", "skip"] if q else HAND_SEEDS, depth=1 if not q else 0,
              kinds=SEG_KINDS, formats=["geff"]),
@@ -622,8 +628,8 @@ def check_c16(tier):
     q = tier == "quick"
     sk = STRUCT_KINDS + ("set_attr",)
     stages = [
-        dict(name="noseg", worlds=["noseg-2d", "noseg-2d-axes"] if q else ["noseg-2d", "noseg-3d", "noseg-2d-axes", "noseg-2d-given"],
-             seeds=HAND_SEEDS, depth=1, kinds=sk),
+        dict(name="noseg", worlds=["noseg-2d", "noseg-2d-axes"] if q else ["noseg-2d", "noseg-3d", "noseg-2d-axes", "noseg-2d-given", "noseg-2d-renamed"],
+             seeds=NOSEG_SEEDS, depth=1, kinds=sk),
         dict(name="seg", worlds=["seg-2d", "seg-2d-aniso", "seg-3d"], seeds=HAND_SEEDS if not q else ["div", "skip", "two"], depth=0 if q else 1, kinds=SEG_KINDS),
     ]
     if q:
